@@ -442,11 +442,9 @@ def _run_job(args):
         # a configuration beyond the bound for which verdicts are claimed (e.g. three spline bins): run for bug hunting
         # only - a `sat` that replays is still a VIOLATION, an undecided query (unknown / timeout) is counted apart and
         # does not make the check inconclusive; nothing is claimed to hold for such a configuration
-        keep, apart = [], []
-        for i in jr.get("inconclusive", []):
-            (apart if i.get("status") in ("unknown", "timeout") else keep).append(i)
-        jr["inconclusive"] = keep
-        jr["bughunt_undecided"] = apart
+        # (also candidates that did not replay, undecided path feasibility ...: nothing is claimed for such a job)
+        jr["bughunt_undecided"] = list(jr.get("inconclusive", []))
+        jr["inconclusive"] = []
     return jr
 
 
